@@ -417,7 +417,7 @@ func ruleSplit(c *Ctx) {
 					}
 					nCons++
 					if unset[r.ret.Block()] {
-						bad = r.ret.Pos()
+						bad = posOr(r.ret.Pos(), fn.Pos())
 					}
 				}
 				c.check(bad == token.NoPos && nCons > 0, "bom-commit:"+name, bad, "every return that consumes input has set "+flag.Name()+" first", name+" can consume input (return a non-zero advance) without having set "+flag.Name()+": when the rest of the input arrives in a later read and starts with EF BB BF, those bytes are stripped from the middle of the data, so the records depend on how the bytes arrived")
@@ -913,7 +913,7 @@ func (s *splitFn) coord(c *Ctx, name string) {
 			}
 		}
 		if modifies && (after[in.Block()] || (in.Block() == startBlk && false)) {
-			late = in.Pos()
+			late = posOr(in.Pos(), fn.Pos())
 		}
 	})
 	c.check(late == token.NoPos, "coord:"+name+":record-start-fixed", late, "the record-start offset is only advanced (skipped lines) before parsing of the record's fields begins", name+": the offset marking the start of the record text is advanced after parsing of the record has begun (e.g. while reading a continuation line of a quoted field): $0 then loses the beginning of its own record")
